@@ -22,15 +22,17 @@ type posKind struct {
 
 func c16Kinds() []posKind {
 	return []posKind{
-		{"int", reflect.TypeOf(0), []string{"7", "null"}, `"s"`},
+		{"int", reflect.TypeOf(0), []string{"9007199254740993", "null"}, `"s"`}, // not representable as a float64
 		{"string", reflect.TypeOf(""), []string{`"v"`, "null"}, "5"},
 		{"bool", reflect.TypeOf(true), []string{"true", "null"}, "1"},
 		{"[]int", reflect.TypeOf([]int(nil)), []string{"[1,2]", "null"}, `{"a":1}`},
 		{"*int", reflect.TypeOf((*int)(nil)), []string{"3", "null"}, `"s"`},
 		{"P1", reflect.TypeOf(P1{}), []string{`{"A":1,"B":"b"}`, "null"}, "[1]"},
 		{"any", tAny, []string{`{"k":[1]}`, "null"}, ""},
-		{"json.RawMessage", reflect.TypeOf(json.RawMessage(nil)), []string{`{"k":1}`, "null"}, ""},
+		{"json.RawMessage", reflect.TypeOf(json.RawMessage(nil)), []string{`{"k":1.50,"a":[1e2]}`, "null"}, ""}, // the element text itself must arrive
 		{"Opt", reflect.TypeOf(Opt{}), []string{"5", "null"}, `"s"`},
+		{"uint64", reflect.TypeOf(uint64(0)), []string{"18446744073709551615", "null"}, "-1"},
+		{"json.Number", reflect.TypeOf(json.Number("")), []string{"1.10", "null"}, "true"},
 	}
 }
 
@@ -60,7 +62,7 @@ func decodeInto(t reflect.Type, js string) (reflect.Value, bool) {
 func c16Positional(maxFull int) *Scenario {
 	return &Scenario{
 		Name:   fmt.Sprintf("Positional: arities 0..6 (all kind tuples up to arity %d), arrays and objects", maxFull),
-		Params: map[string]any{"kinds": []string{"int", "string", "bool", "[]int", "*int", "P1", "any", "json.RawMessage", "Opt (custom Unmarshaler)"}},
+		Params: map[string]any{"kinds": []string{"int", "string", "bool", "[]int", "*int", "P1", "any", "json.RawMessage", "Opt (custom Unmarshaler)", "uint64", "json.Number"}, "values": "integers beyond 2^53, max uint64, number and object texts whose spelling must survive"},
 		Seq: func(r *SeqRun) {
 			kinds := c16Kinds()
 			names := []string{"a", "b", "c", "d", "e", "f"}
@@ -163,7 +165,7 @@ func c16Positional(maxFull int) *Scenario {
 						try("["+strings.Join(el2, ",")+"]", nil, false)
 					}
 				}
-				try("["+strings.Join(base[:n-1], ",")+"]", nil, false)                 // n-1 elements
+				try("["+strings.Join(base[:n-1], ",")+"]", nil, false)                                  // n-1 elements
 				try("["+strings.Join(append(append([]string(nil), base...), "1"), ",")+"]", nil, false) // n+1 elements
 				if n > 1 {
 					try("[]", nil, false)
